@@ -35,6 +35,15 @@ CLAIMED = {
             'Trusted: CPython ast, engine/fold.py, engine/wire.py (gate evaluator). Graph isomorphism, UUID fix-ups, float text precision and KV1 tree equality are not claimed.',
             'static: folded code tables + per-configuration wire token extraction for reader and writer + quoted-slot escape lint',
             'DESIGN.md section 3, C14'),
+    'C15': ('other',
+            'Static rules on vtf.py and the two codec modules: header/resource-table slot sequences of VTF.read and VTF.save per file version 7.2-7.5, header slot -> attribute linkage, '
+            'resource count = entries written; frame loop nest and _frames key order; constructor frame table vs declared mipmap_count; side sequence vs written version; '
+            'bit-provenance interpretation (engine/bits.py) of every uncompressed save_*/load_* pair in the Python module and, through the pyx front end, in the Cython module: '
+            'load(save(p)) keeps each channel in its own channel, preserves the declared top bits, quantisation is idempotent, Python and Cython bit maps are equal; '
+            'bounds guard of Frame.__getitem__/__setitem__ (accepted region derived from the rejecting test); mipmap scaling shape; particle-sheet wire agreement per version.',
+            'Trusted: CPython ast, engine/bits.py, engine/wire.py, engine/pyx.py. DXT/ATI codecs, grey-scale means, bluescreen branches and pixel values are not claimed.',
+            'static: wire-slot extraction per version + symbolic bit-provenance interpretation of codec pairs (Python and Cython) + guard-region extraction',
+            'DESIGN.md section 3, C15'),
     'C13': ('other',
             'Static rules on vpk.py: CFG dominance of the writable-mode guard over every mutation of the file table / storage fields / archive files; '
             'wire agreement of the directory reader and writer (header and entry formats, entry slot -> FileInfo field linkage through the constructor, '
